@@ -182,6 +182,9 @@ func sortOf(t types.Type) string {
 	case kArray:
 		return "(Array Int " + sortOf(t.Underlying().(*types.Array).Elem()) + ")"
 	}
+	if emptyStruct(t) {
+		return "Int" // struct{}: a single value, represented as 0
+	}
 	bail("no single sort for type %s", t)
 	return ""
 }
@@ -206,6 +209,9 @@ func toTerm(v Val) string {
 		return v.Ref
 	case kSlice:
 		return sx("mkslice", v.Ref, v.Off, v.Len, v.Cap)
+	}
+	if v.K == kStruct && len(v.Fields) == 0 {
+		return "0"
 	}
 	bail("toTerm: kind %d", v.K)
 	return ""
@@ -239,8 +245,16 @@ func fromTerm(t types.Type, s string) Val {
 		}
 		return Val{K: kSlice, T: t, Root: el, Ref: sx("sref", s), Off: sx("soff", s), Len: sx("slen_", s), Cap: sx("scap", s)}
 	}
+	if emptyStruct(t) {
+		return Val{K: kStruct, T: t}
+	}
 	bail("fromTerm: type %s", t)
 	return Val{}
+}
+
+func emptyStruct(t types.Type) bool {
+	st, ok := t.Underlying().(*types.Struct)
+	return ok && st.NumFields() == 0
 }
 
 // ptrVal builds the canonical pointer of static type t (a pointer type).
